@@ -26,7 +26,8 @@ func init() {
 		Rule: "(1) explicit-state history search: every sequence of <= k operations (Marshal, MarshalSize, DestinationSSRC, String, %+v, Header, Len, Unmarshal of a second buffer) on every type x 3 shapes, with deep snapshots of the packet, the input buffer, every package-level variable and all earlier results checked in every state; (2) stateless schedule search on the statement-instrumented build: every interleaving of 2 threads with at most b preemptions (every statement of package rtcp is a scheduling point) for drivers on distinct packets of the same type, on types sharing helpers, on one shared packet (read-only operations) and on one shared input buffer, results compared with the sequential run; (3) the same driver bodies free-running under the race detector (supporting evidence). Non-trivial = executions with >= 1 preemption, histories of length >= 2",
 		Assumptions: []string{
 			"granularity of layer 2 is the Go statement under sequential consistency; interleavings inside a statement or a standard-library call, word tearing and weak-memory effects are left to the race-detector pass",
-			"if package rtcp imports sync, sync/atomic or starts goroutines the schedule layer is skipped (blocking primitives are not intercepted) and the run is marked not exhaustive",
+			"package sync is routed through a cooperative shim (Mutex, RWMutex, Once, Pool, WaitGroup): lock waits are scheduling points and deadlocks are reported; go statements, channels and select inside package rtcp switch the schedule layer off and the run is marked not exhaustive",
+			"every Unmarshal operation decodes into a fresh receiver: the statement speaks about the input buffer, not about decoding into a packet that already holds content (the pinned decoders append to existing lists)",
 			"a positive control (a deliberately racy scratch-buffer codec driven by the same explorer) must be found violating in every run",
 		},
 		BoundsQuick:    "purity sweep over D; histories of length <= 3 over 13 operations; schedules: ~500 scenarios (same type, helper-sharing pairs, every pair of types, two operations per thread, three threads, shared packet, shared buffer), preemption bound 2 (bound 1 for executions above 250 scheduling points, for the all-pairs and the three-thread drivers)",
@@ -959,8 +960,9 @@ func c18Purity(c *bx.Ctx) {
 			{"DestinationSSRC", func() string { return fmt.Sprintf("%x", p.DestinationSSRC()) }},
 			{"MarshalSize", func() string { return fmt.Sprint(p.MarshalSize()) }},
 		}
-		if strings.HasPrefix(v.Shape, "big:") && !c.Thorough() {
-			// formatting 64 KiB+ values is quadratic (repeated concatenation): thorough tier only
+		if strings.HasPrefix(v.Shape, "big:") {
+			// formatting 64 KiB+ values is quadratic (repeated concatenation, minutes of CPU time for the
+			// largest): the formatting steps are left to C17's thorough tier for these base values
 			steps = []step{steps[0], steps[1], steps[3], steps[4], steps[6], steps[7]}
 		}
 		first := map[string]string{}
